@@ -312,6 +312,50 @@ def ob_parser(pid, D, label="C05.c"):
                  symbolic="the whole token sequence of a file (unbounded length)", bound="parenthesis nesting <= %d" % D)
 
 
+def refseq_full(par, D, enc):
+    """as refseq, but a doccomment that happens to start with '@module' (token Module_docstring) may stand wherever a
+    doccomment may: to CMake it is an ordinary bracket comment"""
+    P = par.P
+
+    def t(*types):
+        return ('set', rx.norm([(enc[x], enc[x]) for x in types]))
+    single = t(P.Identifier, P.Unquoted_argument, P.Bracket_argument, P.Quoted_argument)
+    args = star(single)
+    for _ in range(D + 1):
+        args = star(alt(single, cat(t(P.T__0), args, t(P.T__1))))
+    inv = cat(t(P.Identifier), t(P.T__0), args, t(P.T__1))
+    doc = t(P.Docstring, P.Module_docstring)
+    item = alt(cat(opt(doc), inv), doc)
+    return cat(star(item), t(-1))
+
+
+def ob_module_anywhere(pid, D, finding, label="C05.c"):
+    """isolates known finding D11: '#[[[ @module' doccomments anywhere but at the start of the file are a syntax error"""
+    def fn(work):
+        c = ctx(D)
+        par, q = c["par"], c["q"]
+        t0, q0, n0 = time.time(), q.secs, q.n
+        enc = _enc(par)
+        dec = {v: k for k, v in enc.items()}
+        ACC = e2.tokens_to_chars(par.rule(0), enc)
+        FULL = refseq_full(par, D, enc)
+        res, w = q.empty("valid sequence with a Module_docstring token rejected by the parser ATN", and_(FULL, not_(ACC)))
+        if res == "unsat":
+            return dict(verdict=vf.HOLDS, paths=q.n - n0, detail="every reference sequence, Module_docstring tokens anywhere, is accepted")
+        if res != "sat":
+            return dict(verdict=vf.INCONCLUSIVE, paths=q.n - n0, detail="z3: " + res)
+        types = [dec[ord(ch)] for ch in w]
+        rep, txt = _replay_parser(par, types, True)
+        P = par.P
+        in_region = any(ty == P.Module_docstring for ty in types[1:])
+        out = _finish(pid, label + "_module_anywhere", work, [("Module_docstring after the first token", str(types), rep and in_region, txt)], [], q0, n0, t0, q,
+                      [{"token_types": types}])
+        return out
+    return vf.FN("%s [known finding %s isolated] '#[[[ @module ...' doccomment after the first token" % (label, finding), fn,
+                 engine="z3 regex membership over the token-type alphabet", encodes=ENC_PAR, symbolic="the whole token sequence",
+                 bound="compound-argument nesting <= %d" % (D + 1), finding=finding)
+
+
 def _replay_parser(par, types, expect_accept):
     """run the real CMakeParser on a synthetic token list"""
     from antlr4 import CommonTokenStream
